@@ -145,6 +145,23 @@ example : FastqRenders (qlineOf ⟨id, id⟩ .sanger) [⟨[120], [], [], []⟩] 
 example : readAll ⟨.qseq .sanger, ⟨id, id⟩⟩ false [64, 120, 10, 10, 43, 10]
     = [.ret ⟨some ⟨[120], [], [], []⟩, none⟩, .ret ⟨none, some .eof⟩] := by decide
 
+/-! #### terminators and white space, for every input
+
+Unlike the FASTA reader, the FASTQ reader does not skip blank lines in every state, and an
+unterminated last line may be what is pending at `io.EOF`; for arbitrary byte strings the
+statements that hold are: -/
+
+/-- **CRLF instead of LF**, every byte string (valid file or not), every template -/
+theorem fastq_crlf_any (cfg : Cfg) (eofWithData : Bool) (bs : Bytes) :
+    readAll cfg eofWithData (Biogo.Fasta.toCRLF bs) = readAll cfg eofWithData bs :=
+  readAll_toCRLF cfg eofWithData bs
+
+/-- **trailing white space** in front of any line terminator, every byte string -/
+theorem fastq_trailing_blanks_any (cfg : Cfg) (eofWithData : Bool) (a blanks b : Bytes)
+    (hb : ∀ x ∈ blanks, isBlank x = true) :
+    readAll cfg eofWithData (a ++ blanks ++ 10 :: b) = readAll cfg eofWithData (a ++ 10 :: b) :=
+  readAll_trailing_blanks cfg eofWithData a blanks b hb
+
 end fastq
 
 end Biogo.Properties.C04_seq
